@@ -335,6 +335,9 @@ def run(ctx):
     ctx.pmap("mzcheck.checks.c16", "task", tasks)
     depth = 3
     ctx.pmap("mzcheck.checks.c16", "seq_task", [dict(tier=ctx.tier, lengths=v, depth=depth) for v in seq_vectors(ctx.tier)])
+    for hs in (("7",) if ctx.quick else ("1", "4", "7", "4242")):  # slices again in interpreters with other hash seeds
+        ctx.pmap("mzcheck.checks.c16", "task", tasks[::8], hashseed=hs)
+        ctx.pmap("mzcheck.checks.c16", "seq_task", [dict(tier=ctx.tier, lengths=v, depth=2) for v in seq_vectors(ctx.tier)[:3]], hashseed=hs)
     top, kmax = (3, 4) if ctx.quick else (4, 5)
     ctx.coverage.update(
         length_vectors=len(V), member_length_range=f"0..{top}", members=f"1..{kmax}", member_grid_sizes=[GRID0 + j for j in range(kmax)],
